@@ -785,6 +785,9 @@ def _after_fault(scn, scared, att, rec, storage, sf, E, D, samples, pt, run_exc,
                 if not compare.bitwise(att.results, ref.results):
                     violation = viol('result_differs_from_accepted_only', [prop, 'result_differs_from_accepted_only', kind, 'run:' + fkind],
                                      'after failed run (batch %d): maxdiff=%s' % (k, compare.maxdiff(att.results, ref.results)))
+                elif scn['mode'] == 'attack' and not compare.bitwise(att.scores, ref.scores):
+                    violation = viol('result_differs_from_accepted_only', [prop, 'result_differs_from_accepted_only', kind, 'run:' + fkind, 'scores'],
+                                     'after failed run (batch %d): scores are not those of the accepted batches' % k)
             except Exception as e:
                 violation = viol('compute_raised', [prop, 'compute_raised', kind, 'run:' + fkind], 'compute_results after failed run raised %r' % (e,))
         if violation is None and expect_rows < len(samples):
